@@ -329,6 +329,99 @@ def occurrence_probes(rnd, events, quick):
     events.append({"op": "MaxMesh", "q": [], "occ": [], "res": sorted(list(c) for c in maximal_mesh_pattern_of_occurrence(Perm(()), [])), "meta": {"form": "empty"}})
 
 
+# ---- the automatic driver on many properties defined by mesh patterns, sixteen interpreters side by side ---------------------
+AUTO_CHILD = r"""
+import contextlib, io, json, sys
+from permuta import Perm, MeshPatt
+from permuta.bisc.bisc import auto_bisc
+out = []
+for patterns in json.load(sys.stdin):
+    ms = [MeshPatt(Perm(p), [tuple(c) for c in R]) for p, R in patterns]
+    def prop(perm, ms=ms):
+        return perm.avoids(*ms)
+    try:
+        with contextlib.redirect_stdout(io.StringIO()):
+            SG = auto_bisc(prop)
+        res = None if not SG else [{"p": list(p), "R": sorted(list(c) for c in R)} for n in sorted(SG) for p in sorted(SG[n]) for R in SG[n][p]]
+    except BaseException as e:
+        res = "raise " + type(e).__name__ + ": " + str(e)[:80]
+    out.append(res)
+print(json.dumps(out))
+"""
+
+
+def auto_mesh_start(ctx, rnd, quick):
+    """Properties 'avoids these one or two mesh patterns' (underlying patterns of length 2, the second often a variation of the
+    first): what the driver learns up to length 4 may be a proper part of what is needed up to length 8 - its own final
+    checks have to notice."""
+    import subprocess
+    import sys
+    from permuta import MeshPatt
+    props = []
+    cells = [(x, y) for x in range(3) for y in range(3)]
+    # (a) pairs chosen so that the driver is tempted: among the permutations of length <= 4 whatever contains the second
+    #     pattern contains the first, yet a permutation of length 5 or 6 contains the second alone.  (The choice is made
+    #     with the library's containment test; it only selects inputs.)
+    short = [Perm(q) for k in range(5) for q in util.perms_of(k)]
+    mid = [Perm(q) for k in (5, 6) for q in util.perms_of(k)][::3]
+    want, tries = (10 if quick else 160), 0
+    while len(props) < want and tries < 6000:
+        tries += 1
+        p = rnd.choice([(0, 1), (1, 0)])
+        R1 = [c for c in cells if rnd.random() < rnd.choice([0.4, 0.55, 0.7])]
+        R2 = [c for c in cells if rnd.random() < rnd.choice([0.5, 0.65, 0.8])]
+        M1, M2 = MeshPatt(Perm(p), R1), MeshPatt(Perm(p), R2)
+        if set(R1) <= set(R2) or not any(Q.contains(M2) for Q in short):
+            continue
+        if all(Q.contains(M1) for Q in short if Q.contains(M2)) and any(Q.contains(M2) and not Q.contains(M1) for Q in mid):
+            props.append([[list(p), [list(c) for c in sorted(R1)]], [list(p), [list(c) for c in sorted(R2)]]])
+    ctx.note("auto_bisc_tempting_pairs", {"found": len(props), "candidates_tried": tries})
+    # (b) unscreened properties: one or two mesh patterns on 01 / 10
+    for _ in range(12 if quick else 240):
+        p = rnd.choice([(0, 1), (1, 0)])
+        R1 = [c for c in cells if rnd.random() < rnd.choice([0.15, 0.3, 0.5, 0.7])]
+        pats = [[list(p), [list(c) for c in sorted(R1)]]]
+        if rnd.random() < 0.7:
+            q = rnd.choice([(0, 1), (1, 0)])
+            R2 = [c for c in cells if rnd.random() < rnd.choice([0.2, 0.4, 0.6])]
+            pats.append([list(q), [list(c) for c in sorted(R2)]])
+        props.append(pats)
+    nproc = 16
+    procs = []
+    for k in range(nproc):
+        pr = subprocess.Popen([sys.executable, "-c", AUTO_CHILD], stdin=subprocess.PIPE, stdout=subprocess.PIPE, stderr=subprocess.PIPE, text=True,
+                              env=util.hash_env(1700 + k))
+        pr.stdin.write(json.dumps(props[k::nproc]))
+        pr.stdin.close()
+        pr.stdin = None
+        procs.append(pr)
+    return props, procs
+
+
+def auto_mesh_finish(ctx, rnd, started, events, quick):
+    props, procs = started
+    nproc = len(procs)
+    small = [p for k in range(6) for p in util.perms_of(k)]
+    six = util.perms_of(6)
+    described = none = 0
+    for k, pr in enumerate(procs):
+        out, err = pr.communicate(timeout=2400)
+        if pr.returncode != 0:
+            raise tlc.MachineryFailure("C17: auto_bisc interpreter failed: " + err[-300:])
+        for patterns, sg in zip(props[k::nproc], json.loads(out)):
+            avoid = [{"p": pp, "R": RR} for pp, RR in patterns]
+            if isinstance(sg, str):
+                ctx.violation({"kind": "auto_bisc", "property": {"avoids": avoid}}, "NoException", "a description or None", sg)
+                continue
+            if not sg:
+                none += 1
+                continue
+            described += 1
+            for q in small + six[rnd.randrange(5)::5]:
+                events.append({"op": "DescribesAv", "SG": sg, "q": list(q), "avoid": avoid, "meta": {"form": "property, second interpreter"}})
+    ctx.note("auto_bisc_on_mesh_defined_properties", {"properties": len(props), "described": described, "no_description": none})
+
+
 def auto_probes(ctx, rnd, events, quick):
     from permuta.bisc.bisc import create_bisc_input
     props = [("avoids 231", lambda p: p.avoids(Perm((1, 2, 0)))), ("avoids 132 and 321", lambda p: p.avoids(Perm((0, 2, 1)), Perm((2, 1, 0))))]
@@ -364,6 +457,7 @@ def run(ctx):
     events = []
     nruns = 0
     phases, t0 = {}, [time.time()]
+    auto_started = auto_mesh_start(ctx, util.rng(ctx, 1717), quick)      # sixteen interpreters work while this one goes on
 
     def lap(what):
         phases[what] = round(time.time() - t0[0], 1)
@@ -457,6 +551,7 @@ def run(ctx):
     occurrence_probes(rnd, events, quick)
     # the automatic driver on named properties (those whose learning finishes quickly)
     nruns += auto_probes(ctx, rnd, events, quick)
+    auto_mesh_finish(ctx, rnd, auto_started, events, quick)
     lap("occurrences and auto_bisc")
     if len(events) < 300:
         raise tlc.MachineryFailure("C17: only %d events recorded" % len(events))
